@@ -1511,8 +1511,14 @@ func (p *c08Pod) derive(ids map[string]int) {
 	for i := 0; i < 2; i++ {
 		p.req[i], p.lim[i] = w.amount(i, 0), w.amount(i, 1)
 	}
-	// the resource names in the object depend on the class, so the class is part of the spec's identity
-	k := w.specKey(p.cls)
+	// the identity of the PodSpec is read off the BUILT object (OnUpdate compares the specs with DeepEqual): the resource
+	// names depend on the class, but only where an amount is placed - a free-class pod and an all-zero pod carry none, and
+	// pod-level resources exist for prod pods only, so a class change through labels may leave the spec as it is
+	// (w.specKey alone would call such specs different)
+	sp := p.buildRaw(time.Time{}).Spec
+	sp.NodeName = ""
+	kb, _ := json.Marshal(sp)
+	k := string(kb)
 	if _, ok := ids[k]; !ok {
 		ids[k] = len(ids) + 1
 	}
